@@ -91,8 +91,10 @@ class QueryJudge:
                 # Tier A for the stateful layer: the L2 machine (caches + duplicate tracking) must give the
                 # implementation's rows under the same configuration and evaluation number
                 m2 = None
-                if l2 is not None and out[0] == 'rows' and ev < 2:
-                    m2 = l2['on' if cfg_name.startswith('on') else 'off'][ev]
+                # (a preliminary evaluation that ran to the end counts as an evaluation of the machine)
+                lev = ev + (1 if cfg.get('pre_completed') else 0)
+                if l2 is not None and out[0] == 'rows' and lev < 3:
+                    m2 = l2['on' if cfg_name.startswith('on') else 'off'][lev]
                     if sorted(out[1]) == sorted(m2):
                         rep.count('l2_exact')
                     elif sorted(set(out[1])) == sorted(set(m2)):
